@@ -121,7 +121,12 @@ CLAIMS = {
          "out-of-range array_get or a failing callee in every operand / argument / branch / arm / condition / loop-body / discarded-let / unused-let / "
          "go position; nested compositions) whose programs are compiled by the real pipeline; the real Core, Mono, Lift, ANF dumps run under Sem "
          "and the real Go AST under Go.Sem, under both go schedules, and must agree with each other (first divergent stage reported) and with "
-         "the trace the generator itself computes for the source program (labels in evaluation order, final Ref value, failure point).",
+         "the trace the generator itself computes for the source program (labels in evaluation order, final Ref value, failure point). "
+         "Operands of every binary / logical form are also placed inside ten nearly-trivial shapes (field of a returned struct or of a struct "
+         "literal, tuple projection, enum payload via match, double negation, nested && / ||, array_get / vec_get of a call, int32_to_string of a "
+         "call, call of a closure variable) with the left operand of && / || deciding and not deciding. Translator: the guard of the "
+         "EBinary{And|Or} arm and the immediates of anf_imm are regenerated from anf.rs (Gen/AnfGuards.lean); the model's trivialRhs reads the "
+         "table and trivialRhs_eq_isAtom, on which the preservation proofs rest, re-checks it.",
     design_ref="§5 C09, §C09 — as built",
     note="Proved: the theorems above, about Model/Anf.lean and Sem. Caveat in the theorems: a source run that goes wrong (Fail.stuck = ill-typed IR) "
          "is only required to be matched by some outcome (ANF names all operands before the operation, so it notices an ill-typed operand later); "
